@@ -719,8 +719,9 @@ impl Name {
 pub open spec fn inherited(ctx: Context, c: Class, f: ClassField) -> bool {
     exists|p: TrueName| hs(c.parents).contains(p) && hsf((#[trigger] ctx_class(ctx, p)).fields).contains(f)
 }
-/// the rule, from the language documentation: a constructor has to assign every field the class ITSELF declares (not one a
-/// parent already has) whose type does not admit None and which has no default value
+/// the rule (read off the checker's diagnostic `Non nullable attribute .. not assigned to in constructor`; the docs do not state
+/// it): a constructor has to assign every field the class ITSELF declares (not one a parent already has) whose type does not
+/// admit None and which has no default value
 pub open spec fn has_to_assign(ctx: Context, c: Class, f: ClassField) -> bool {
     hsf(c.fields).contains(f) && !inherited(ctx, c, f) && !name_nullable(f.ty) && !f.assigned_to
 }
